@@ -21,6 +21,7 @@ R2.6 a text splice that does not offset (`_put_src` with `tail` left at its defa
 R2.7 a direct store into the live line list of the tree of `self` (outside _put_src and the indent rewriters, which flush through
      _offset_lns) happens with the memo of `self` known empty or is followed by a flush on every normal path: pars() / bloc are
      computed from the text around a node, so changing text without touching leaves them stale.
+R2.8 a computed memo key is built from the same argument values as the memoised result (no rebinding in between).
 Not decided: equality of loc / pars / own_src / navigation answers with a fresh parse (value level); whether a range flush
 (_offset from the root) actually reaches a given node (depends on positions) — R2.1 accepts a range flush as covering.
 """
@@ -1096,6 +1097,55 @@ def check_direct_text_stores(ctx):
         raise AnalysisError(f'only {n} direct live-line stores found')
 
 
+def check_memo_keys(ctx):
+    """R2.8 - a computed memo key (`key = f(args)`; `self._cache[key] = value`) is computed from the same argument values the memoised
+    value is computed from: none of the names the key expression reads is rebound between the key and the store (a default resolved
+    *after* the key was built files the result under the wrong key and serves it to later calls made with other values)."""
+    ctx.rule('R2.8', 'names a computed memo key is built from are not rebound between the key computation and the store under that key', 3)
+    n = 0
+    for fi in ctx.repo.all_funcs():
+        if isinstance(fi.node, ast.Lambda):
+            continue
+        stores = []
+        for x in walk_no_nested(fi.node):
+            for t in _targets(x):
+                if isinstance(t, ast.Subscript) and isinstance(t.value, ast.Attribute) and t.value.attr == '_cache' and isinstance(t.slice, ast.Name):
+                    stores.append((x, t.slice.id))
+        if not stores:
+            continue
+        cfg = CFG(fi.node)
+        node_of = {}
+        for nd in cfg.nodes:
+            for y in subnodes(cfg, nd):
+                node_of[id(y)] = nd
+        for st, key in stores:
+            kdefs = [x for x in walk_no_nested(fi.node) if isinstance(x, ast.Assign) and isinstance(x.targets[0], ast.Name) and x.targets[0].id == key]
+            if len(kdefs) != 1 or id(kdefs[0]) not in node_of or id(st) not in node_of:
+                continue
+            kd = kdefs[0]
+            deps = {y.id for y in ast.walk(kd.value) if isinstance(y, ast.Name) and isinstance(y.ctx, ast.Load)} & \
+                   {y.id for y in walk_no_nested(fi.node) if isinstance(y, ast.Name) and isinstance(y.ctx, ast.Store)} | \
+                   ({y.id for y in ast.walk(kd.value) if isinstance(y, ast.Name)} & set(fi.params()))
+            n += 1
+            kn, sn = node_of[id(kd)].id, node_of[id(st)].id
+            between = cfg.reachable(kn, lambda n_, lab, s: lab != 'exc', stop={sn})
+            bad = None
+            for nd in cfg.nodes:
+                if nd.id in between and nd.id not in (kn, sn):
+                    # only nodes from which the store is still reachable matter
+                    if sn not in cfg.reachable(nd.id, lambda n_, lab, s: lab != 'exc'):
+                        continue
+                    for y in subnodes(cfg, nd):
+                        if isinstance(y, ast.Name) and isinstance(y.ctx, ast.Store) and y.id in deps:
+                            bad = (y.id, nd.lineno)
+            ctx.check('R2.8', bad is None, fi.module, fi.qualname, f'{key} = {norm(kd.value, 60)}',
+                      f'`{bad[0] if bad else ""}` is rebound (line {bad[1] if bad else 0}) after the memo key was built from it and before the result is stored '
+                      f'under that key: the result computed for the new value is served to later calls that ask with the old one', st.lineno,
+                      sample={'function': fi.key, 'key': norm(kd.value, 60), 'depends_on': sorted(deps)})
+    if n < 3:
+        raise AnalysisError(f'only {n} computed memo keys found')
+
+
 def run(ctx):
     ctx.not_decided += ['equality of loc / bloc / pars / own_src / navigation / view answers with a fresh parse of the current source',
                         'whether a position-driven range flush (_offset from the root) reaches a particular node',
@@ -1110,3 +1160,4 @@ def run(ctx):
     check_offset_walk(ctx)
     check_unsynced_put(ctx, res)
     check_direct_text_stores(ctx)
+    check_memo_keys(ctx)
